@@ -14,4 +14,15 @@ CONTROLS = [
     dict(name="defaults replaced by the padding alone",
          edits=[(F, "                list(islice(cycle((None,)), diff))\n                + getattr(function_def.args, defaults),", "                list(islice(cycle((None,)), diff + len(getattr(function_def.args, defaults)))),")],
          expect=r"defaults-padding/block.ensures\[[23]\]"),
+    dict(name="Optional-from-prose made case-insensitive (seed C02_g shape)",
+         edits=[('cdd/shared/docstring_parsers.py', '(_param["doc"].startswith(("(Optional)", "Optional")) or was_none)', '(_param["doc"].lower().startswith(("(optional)", "optional")) or was_none)')],
+         expect=r"optional-from-prose/block.ensures\[1\]"),
+    dict(name="Optional-from-prose looks for the word anywhere in the description",
+         edits=[('cdd/shared/docstring_parsers.py', '(_param["doc"].startswith(("(Optional)", "Optional")) or was_none)', '("Optional" in _param["doc"] or was_none)')],
+         expect=r"optional-from-prose/block.ensures\[1\]"),
+    dict(name="Optional wrapping applied twice",
+         edits=[('cdd/shared/docstring_parsers.py', '            and not _param["typ"].startswith("Optional[")\n        ):', '        ):')],
+         expect=r"optional-from-prose/block.ensures\[2\]"),
+    dict(name="BENIGN: the two prefixes are tested one by one", benign=True,
+         edits=[('cdd/shared/docstring_parsers.py', '(_param["doc"].startswith(("(Optional)", "Optional")) or was_none)', '(_param["doc"].startswith("(Optional)") or _param["doc"].startswith("Optional") or was_none)')]),
 ]
